@@ -752,7 +752,9 @@ fn apply_fold_specific_filter<'query, AdapterT: Adapter<'query>>(
         let value = match tagged_value {
             TaggedValue::Some(value) => value,
             TaggedValue::NonexistentOptional => {
-                unreachable!("while applying fold-specific filter, the @fold turned out to not exist: {ctx:?}")
+                // The @fold is inside an @optional scope that did not exist, so it has no count.
+                // Such a context has no active vertex, and filters let it through unchanged.
+                FieldValue::Null
             }
         };
         ctx.values.push(value);
